@@ -4,7 +4,8 @@ from . import common
 import impl
 
 PID = "C11"
-LEAN_MODULES = ["BtcHd.Props.C11"] + (["BtcHd.Props.C11b"] if __import__("os").path.exists(__import__("os").path.join(__import__("os").path.dirname(__file__), "..", "..", "lean", "BtcHd", "Props", "C11b.lean")) else [])
+LEAN_MODULES = ["BtcHd.Props.C11", "BtcHd.Props.C11b", "BtcHd.Props.C11c"]
+LEAN_MODULES_THOROUGH = ["BtcHd.Props.TrBech32"]
 TRUSTED_BASE = common.CORE_TRUSTED + [
     "the BCH facts are `decide +kernel` evaluations (kernel GMP arithmetic), one module per row, generated from the "
     "generator words extracted from the source"]
@@ -154,7 +155,11 @@ def cases(rng, tier):
             branch = "dec-delete"
         elif r < 0.85:
             k = rng.random()
-            if k < 0.4:
+            if k < 0.15:
+                s = list(addr[:pos].upper() + addr[pos:])          # case changes exactly at the separator
+            elif k < 0.3:
+                s = list(addr[:pos + 1] + addr[pos + 1:].upper())
+            elif k < 0.4:
                 s = list(addr.upper())
             elif k < 0.7:
                 j = rng.randrange(len(s))
